@@ -216,7 +216,7 @@ def _pick_links(rng, P, s):
         s.features.add("layer:%d" % layer)
 
 
-def _lane_data(rng, P, link, bc, s, flags_out):
+def _lane_data(rng, P, link, bc, s, flags_out, chips_out=None):
     """ALPIDE byte stream per lane for one readout frame. Returns {ident: bytes}."""
     res = {}
     ib = link.layer <= 2
@@ -251,6 +251,8 @@ def _lane_data(rng, P, link, bc, s, flags_out):
                 if regions:
                     s.features.add("alpide:hits")
         pad_between = rng.choice([0, 0, 1, 3])
+        if chips_out is not None:
+            chips_out[ident] = [c.chip_id for c in chips]
         res[ident] = alpide.lane_bytes(chips, pad_between=pad_between, pad_end=rng.choice([0, 0, 2, 11]))
         if pad_between:
             s.features.add("alpide:padding")
@@ -399,10 +401,11 @@ def gen_link(rng, P, s, li):
                 s.features.add("cdw")
             flags = []
             frame_bc = rng.randrange(256)
-            lane = _lane_data(rng, P, link, frame_bc, s, flags)
+            chipmap = {}
+            lane = _lane_data(rng, P, link, frame_bc, s, flags, chipmap)
             per_lane = {i: alpide.to_data_words(i, d) for i, d in lane.items()}
             dws = _interleave(rng, per_lane)
-            frame = dict(link=li, flags=flags, bc=frame_bc, tdh=(len(pkts), len(words) - (2 if words[-1][0] == "CDW" else 1)))
+            frame = dict(link=li, flags=flags, bc=frame_bc, chips=chipmap, tdh=(len(pkts), len(words) - (2 if words[-1][0] == "CDW" else 1)))
             # split over pages?
             room = _max_words(s.fmt) - len(words) - 2
             want_split = (rng.random() < P.p_split and len(dws) >= 2) or len(dws) > room
